@@ -82,6 +82,13 @@ func c02Scenario(s *verifsim.Sim) {
 		if err != nil {
 			ksFatal("generated rule text rejected: %v\n%s", err, text)
 		}
+		if st.cur != nil && faultKind == 0 && len(st.cur.core.lpmTrieIndices) > 0 && T.Chance(1, 6) {
+			// the ring has gone round (slots of many built-and-retired generations in between): the next
+			// allocation lands on slots the live generation still owns
+			globalNextLpmIndex.Store(st.cur.core.lpmTrieIndices[T.Choose(len(st.cur.core.lpmTrieIndices))])
+			w.lastRing = globalNextLpmIndex.Load()
+			s.Probe("kern.slot-reuse")
+		}
 		s.Notef("generation %d (ring at %d):\n%s", g, globalNextLpmIndex.Load(), text)
 		before := globalNextLpmIndex.Load()
 		idx, err := w.BuildKernspace(gen)
